@@ -588,6 +588,55 @@ def gen_float_case(rng, nobjs, dirs, maxn):
     return {"nobjs": nobjs, "dirs": list(dirs), "bounds": ("mm", [b[0] for b in bnd], [b[1] for b in bnd]), "set": members}
 
 
+# "large offset" family: every objective shifted by a huge common offset (the ranges stay 1/2 .. 8 units, powers of two).
+# The unchanged normalisation (o - min) / (max - min) is EXACT on these inputs (o - min is exact, the division by a power of
+# two is exact) although |o| / range is ~1e12..1e15; an algebraically equivalent o*scale - min*scale is not.
+OFFSETS = [2.0 ** 40, -2.0 ** 40, 2.0 ** 45, -2.0 ** 45, 2.0 ** 50, -2.0 ** 50, float(round(1e15)), -float(round(1e15)), 4e12, -4e12]
+
+
+def _shift_vec(v, off):
+    """v + off coordinate-wise, or None if some sum is not a binary64 number"""
+    out = []
+    for x, o in zip(v, off):
+        y = x + o
+        if Fraction(y) != Fraction(x) + Fraction(o):
+            return None
+        out.append(y)
+    return out
+
+
+def _shift_members(ms, off):
+    out = []
+    for sid, o, cv in ms:
+        v = _shift_vec(o, off)
+        if v is None:
+            return None
+        out.append((sid, v, cv))
+    return out
+
+
+def shift_case(case, rng):
+    n = case["nobjs"]
+    for attempt in range(6):
+        off = [rng.choice(OFFSETS if attempt < 4 else OFFSETS[:2]) for _ in range(n)]
+        st = _shift_members(case["set"], off)
+        if st is None:
+            continue
+        b = case["bounds"]
+        if b[0] == "mm":
+            lo, hi = _shift_vec(b[1], off), _shift_vec(b[2], off)
+            if lo is None or hi is None:
+                continue
+            nb = ("mm", lo, hi)
+        else:
+            rf = _shift_members(b[1], off)
+            if rf is None:
+                continue
+            nb = ("ref", rf)
+        return {"nobjs": n, "dirs": list(case["dirs"]), "bounds": nb, "set": st, "large_offset": True}
+    return None
+
+
 FIXED_CASES = [
     # DESIGN.md section 7 #3: maximised objective better than the ideal / worse than the nadir
     {"nobjs": 2, "dirs": [True, True], "bounds": ("mm", [0.0, 0.0], [1.0, 1.0]), "set": [(0, [2.0, 0.5], 0.0)]},
@@ -639,9 +688,13 @@ def run(ctx):
             k = per if nobjs <= 3 else max(2, per * 8 // len(alld))
             for _ in range(k * (3 if nobjs == 2 else 1)):
                 cases.append(gen_grid_case(rng, nobjs, dirs, maxn if nobjs < 5 else min(maxn, 7)))
+                if rng.random() < 0.3:
+                    sc = shift_case(cases[-1], rng)
+                    if sc is not None:
+                        cases.append(sc)
     dist = {"n_objs": {}, "set_size": {}, "bounds": {"explicit": 0, "reference_set": 0}, "impl_result": {"value": 0, "exception": 0},
             "with_repeated_object": 0, "with_duplicate": 0, "with_infeasible": 0, "with_point_beyond_bounds": 0, "with_coordinate_tie": 0,
-            "direction_vectors": set()}
+            "large_offset(objectives around +-2^40..2^50, 1e15, 4e12 with ranges 1/2..8)": 0, "direction_vectors": set()}
     lits, kept, inexact, skipped = [], [], 0, 0
     lits_ll, kept_ll = [], []
     LONG_LIVED.clear()
@@ -666,6 +719,7 @@ def run(ctx):
         dist["bounds"]["explicit" if case["bounds"][0] == "mm" else "reference_set"] += 1
         dist["impl_result"]["value" if res[0] == "ok" else "exception"] += 1
         dist["direction_vectors"].add(tuple(case["dirs"]))
+        dist["large_offset(objectives around +-2^40..2^50, 1e15, 4e12 with ranges 1/2..8)"] += bool(case.get("large_offset"))
         dist["with_repeated_object"] += len({m[0] for m in st}) < len(st)
         dist["with_infeasible"] += any(m[2] != 0.0 for m in st)
         if pts is not None:
@@ -714,7 +768,8 @@ def run(ctx):
     ctx.coverage["calls_through_long_lived_indicator_instances"] = REUSE["long_lived_calls"]
     ctx.rule = ("function cases on dyadic grids (coordinates k/8 or k/4, bounds [0,1],[0,2],[-1,1],[0,4],[1,2],[-2,2],[0,.5] or a reference set spanning them): "
                 "2-5 objectives x every direction vector, 0-%d listed solutions with duplicates, single-coordinate ties, values on and beyond both bounds, infeasible members, "
-                "the same object listed twice, reference objects listed in the set, rejected bounds; a case is kept only if every float operation is exact "
+                "the same object listed twice, reference objects listed in the set, rejected bounds; a 'large offset' family (the same sets with every objective shifted by +-2^40, 2^45, 2^50, 1e15 or 4e12, "
+                "explicit bounds and reference sets shifted alike: the unchanged (o-min)/(max-min) is exact there); a case is kept only if every float operation is exact "
                 "(decided on Fractions: o-min, max-min and the quotient are binary64 numbers, clipped coordinates multiples of 2^-h with nobjs*h <= 52), else discarded and counted. "
                 "non-trivial = at least two distinct points enter the volume AND (a coordinate tie, a repeated object, a duplicate, an infeasible member, a clipped or dropped "
                 "point, or a maximised objective); distinct by full input. evaluations counts every call of the real Hypervolume (cases + metamorphic variants + float cases)" % maxn)
